@@ -109,6 +109,82 @@ theorem clear_other {f : Field} {r c r' c' : Nat} (h : ∀ v ∈ f.views, (r, c)
   exact absurd hb (h w hw)
 
 
+theorem clearInViews_other {vs : List FView} {n : VName} {r c r' c' : Nat}
+    (h : ∀ v ∈ vs, (r, c) ∉ v.bits) : ∀ v ∈ clearInViews vs n r' c', (r, c) ∉ v.bits := by
+  induction vs with
+  | nil =>
+    intro v hv
+    simp only [clearInViews, List.mem_singleton] at hv
+    subst hv; simp
+  | cons w ws ih =>
+    intro v hv
+    simp only [clearInViews] at hv
+    split at hv
+    · rcases List.mem_cons.mp hv with rfl | hv
+      · simp only [List.mem_filter, not_and]
+        intro hb; exact absurd hb (h w (by simp))
+      · exact h v (by simp [hv])
+    · rcases List.mem_cons.mp hv with rfl | hv
+      · exact h _ (by simp)
+      · exact ih (fun v hv => h v (by simp [hv])) v hv
+
+theorem importFold_other (q : Quantum) (noStd : Bool) {r c : Nat} {cl : Bool}
+    (bits : List (Nat × Nat × Option Civil))
+    (hne : cl = true ∨ ∀ b ∈ bits, (b.1, b.2.1) ≠ (r, c)) (vs : List FView)
+    (h : ∀ v ∈ vs, (r, c) ∉ v.bits) :
+    ∀ v ∈ bits.foldl (fun (vs : List FView) b =>
+      let names : List VName := match b.2.2 with
+        | none => [.std]
+        | some t => (viewsByTime t q).map .tv ++ (if noStd then [] else [.std])
+      names.foldl (fun vs n =>
+        if cl then clearInViews vs n b.1 b.2.1 else (setInViews vs n b.1 b.2.1).1) vs) vs,
+      (r, c) ∉ v.bits := by
+  induction bits generalizing vs with
+  | nil => simpa using h
+  | cons b bs ih =>
+    simp only [List.foldl_cons]
+    apply ih (hne.imp id (fun hh b' hb' => hh b' (by simp [hb'])))
+    generalize (match b.2.2 with
+      | none => [VName.std]
+      | some t => (viewsByTime t q).map VName.tv ++ (if noStd then [] else [VName.std])) = names
+    induction names generalizing vs with
+    | nil => simpa using h
+    | cons n ns ihn =>
+      simp only [List.foldl_cons]
+      apply ihn
+      cases hcl : cl
+      · simp only [Bool.false_eq_true, if_false]
+        have : (b.1, b.2.1) ≠ (r, c) := by
+          rcases hne with hh | hh
+          · rw [hcl] at hh; cases hh
+          · exact hh b (by simp)
+        exact setInViews_other this h
+      · simp only [if_true]
+        exact clearInViews_other h
+
+/-- An import that does not set (r, c) (a clear import never sets anything) leaves it cleared. -/
+theorem importBits_other {f g : Field} {r c : Nat} {bits : List (Nat × Nat × Option Civil)} {cl : Bool}
+    (hne : cl = true ∨ ∀ b ∈ bits, (b.1, b.2.1) ≠ (r, c))
+    (h : ∀ v ∈ f.views, (r, c) ∉ v.bits) (hg : f.importBits bits cl = some g) :
+    ∀ v ∈ g.views, (r, c) ∉ v.bits := by
+  unfold Field.importBits at hg
+  split at hg
+  · cases hg
+  · simp only [Option.some.injEq] at hg
+    subst hg
+    exact importFold_other f.q f.noStd bits hne f.views h
+
+theorem mkView_other {f : Field} {n : VName} {r c : Nat} (h : ∀ v ∈ f.views, (r, c) ∉ v.bits) :
+    ∀ v ∈ (f.mkView n).views, (r, c) ∉ v.bits := by
+  unfold Field.mkView
+  split
+  · exact h
+  · intro v hv
+    simp only [List.mem_append, List.mem_singleton] at hv
+    rcases hv with hv | rfl
+    · exact h v hv
+    · simp
+
 structure StrictTotal {α : Type} (lt : α → α → Bool) : Prop where
   irrefl : ∀ a, lt a a = false
   trans : ∀ a b c, lt a b = true → lt b c = true → lt a c = true
